@@ -762,6 +762,8 @@ class ValueDate(Value):
         return self.value == other.value
 
     def __lt__(self, other):
+        if other.isNumerical():
+            return False
         if not isinstance(other, ValueDate):
             return str(self) < str(other)
         return self.value < other.value
@@ -805,6 +807,8 @@ class ValueDecimal(Value):
         return self.value == other.asDecimal().value
 
     def __lt__(self, other):
+        if other.isDate():
+            return True
         if not other.isNumerical():
             return str(self) < str(other)
         return self.value < other.asDecimal().value
@@ -933,6 +937,8 @@ class ValueInt(Value):
         return self.value == other.value
 
     def __lt__(self, other):
+        if other.isDate():
+            return True
         if not other.isNumerical():
             return str(self) < str(other)
         if isinstance(other, ValueDecimal):
